@@ -20,7 +20,7 @@ CHECKS = {
                      'comparison, and random/PCT/DFS schedules of the real code (up to 5 tasks, 4 workers) are validated by TLC (SchedTrace).',
                 note=_SCHED_NOTE, technique='TLA+ spec of the scheduler + TLC exhaustive interleavings; replay into the real threads code under a '
                 'deterministic scheduler; TLC trace validation (strict + observer)'),
-    'C02': dict(engine='Sched', category='model_checking', design_ref='DESIGN.md §4 C02',
+    'C02': dict(engine='Sched', also=['Decide'], category='model_checking', design_ref='DESIGN.md §4 C02',
                 text='Same model; invariants: at return every task has the status given by the recursive definition Expected (SKIPPED iff a hard '
                      'dependency is expected FAILED/SKIPPED, else DONE/FAILED by its own result, malformed results = FAILED), executed at most '
                      'once, exactly once unless skipped, no foreign update applied, soft failures never skip; checked by TLC for every '
@@ -33,7 +33,7 @@ CHECKS = {
                      'schedule, plus real-thread driver processes that must exit by themselves.',
                 note=_SCHED_NOTE + '; one wall-clock assertion (driver process exits within 60 s, expected < 1 s)',
                 technique='TLA+ spec + TLC (safety, deadlock, liveness); deterministic-scheduler exploration of the real code; trace validation'),
-    'C04': dict(engine='Runs', category='model_checking', design_ref='DESIGN.md §4 C04',
+    'C04': dict(engine='Runs', also=['Decide'], category='model_checking', design_ref='DESIGN.md §4 C04',
                 text='Runs.tla models histories of runs (merge of persisted DONE entries, master passes with the decision function on logical '
                      'clocks, executions, write-back of every entry with an output directory) with faults between runs (fail/recover, lost file, '
                      'added task); TLC checks C04_Fresh and C04_NoNeedlessRerun over all 3-task graphs x histories of 3-4 runs. Bound to the code: '
@@ -111,9 +111,54 @@ CHECKS = {
                      'written by the real code into a watched scratch directory and its disk projection judged by TLC (ReportTreeTrace).',
                 note='titles from a 10-token alphabet; Sphinx toctree resolution re-implemented in the projection; open finding for titles ending in .rst',
                 technique='TLA+ spec + TLC enumeration of trees, replay into FormattedRst.write, TLC trace validation'),
+    'C10': dict(engine='T4Doc', category='exploration', design_ref='DESIGN.md §4 C10',
+                text='Modest level. T4Doc.tla (ReadOf(PrintDoc(doc)) = Expected: edition selection, response/zone attribution, bin flipping, column '
+                     'roles, error = value x sigma/100) and Ap3File.tla (Reader items = Picker picks = stored arrays) are checked by TLC over document '
+                     'structures; dumps are rendered into listings from templates cut out of the shipped examples / written with h5py and read back by '
+                     'the real Parser, Reader and Picker; random printed listings are validated by TLC against T4DocTrace.tla.',
+                note='decides the templated spectrum / integrated / time-spectrum layouts and the standard Apollo3 tree only; the number-for-number '
+                     'comparison is Python-side on exactly representable values; other layouts (mesh, IFP, sensitivities, depletion) are not covered',
+                technique='TLA+ document model + TLC enumeration of structures, rendering/read-back through the real parsers, TLC trace validation'),
+    'C11': dict(engine='T4Scan', category='fault_enumeration', design_ref='DESIGN.md §4 C11',
+                text='Crash-point enumeration: every byte offset of the small example listings, a seeded sample inside the scanner-interpreted lines of '
+                     'all listings, and every field-boundary cut of all model listings (T4Scan.tla, a transcription of the scanner as a line-kind '
+                     'state machine checked by TLC) are parsed by the real Parser in long-lived processes interleaved with complete listings and as '
+                     'first parse of a fresh process, under a watchdog; observations are validated by TLC against T4ScanTrace.tla and successful '
+                     'editions compared with those of the complete listing.',
+                note='classify() (substring tests copied from scan.py) is a trusted abstraction function; run-level flags are not compared; replays judge '
+                     'in Python (exception type, real-vs-real results)',
+                technique='TLA+ scanner state machine + TLC; fault enumeration of cut points on real and rendered listings; TLC trace validation'),
+    'C14': dict(engine='Persist', category='model_checking', design_ref='DESIGN.md §4 C14',
+                text='Persist.tla (per-task files absent/empty/partial/full/garbage; BeginWrite, WriteChunk, EndWrite, Crash, Fault, ReadAll) is '
+                     'model-checked exhaustively; behaviours are replayed through the real write_env / read_env / Env.to_file / Env.from_file with '
+                     'byte-exact crash injection; every truncation length of many pickled payloads and random histories are validated by TLC '
+                     '(PersistTrace.tla).',
+                note='a crash is assumed to leave a prefix of the written bytes; garbage is curated (mutated pickles can kill the interpreter); '
+                     'unreadable = symlink loop / directory in place of the file',
+                technique='TLA+ spec + TLC exhaustive and simulated, replay with crash injection, TLC batch trace validation'),
+    'C15': dict(engine='Factory', category='model_checking', design_ref='DESIGN.md §4 C15',
+                text='Factory.tla (requests -> task | error; equal requests same task, different requests different task or error, the task acts as '
+                     'its request; transitive closure and unique names) is model-checked; all pairs and small triples of requests and all 3-4-task '
+                     'closure cases are replayed on Use / RunTaskFactory / close_dependency_graph / check_unique_task_names from an emptied cache; '
+                     'FactoryImpl.tla (name-keyed caches as coded) is refuted by TLC as documented negative self-test; random histories are '
+                     'validated by TLC (FactoryTrace.tla). Nine open findings (name-keyed caches conflate distinct requests).',
+                note='serialize is not varied; a fresh process is obtained by emptying Use._CACHE; the nine cache-conflation classes are open findings',
+                technique='TLA+ spec + refinement check + TLC enumeration, replay into the wrappers/factories, TLC batch trace validation'),
+    'C19': dict(engine='RunCmd', category='model_checking', design_ref='DESIGN.md §4 C19',
+                text='RunCmd.tla (commands in order, stop at first non-zero, return codes, captured streams, per-task directory from the sanitized '
+                     'name, invalid names rejected before any file is created) is model-checked; every command list and name list of the configuration '
+                     'is executed on real RunTask objects with sh -c commands, directly and under the scheduler; random cases validated by TLC.',
+                note='single task per scheduler run; stderr tokens are checked as a subsequence (echo lines are extra)',
+                technique='TLA+ spec + TLC enumeration, replay with real subprocesses, TLC batch trace validation'),
 }
 
 ENGINES = {
+    'T4Doc': dict(path='specs/T4Doc.tla', kind_free_text='document model + Ap3File.tla + T4DocTrace.tla; conf_t4doc.py'),
+    'T4Scan': dict(path='specs/T4Scan.tla', kind_free_text='scanner line-kind state machine + T4ScanTrace.tla; conf_t4scan.py'),
+    'Persist': dict(path='specs/Persist.tla', kind_free_text='persistence/crash state machine + PersistTrace.tla; conf_persist.py'),
+    'Factory': dict(path='specs/Factory.tla', kind_free_text='request/task spec + FactoryImpl.tla refinement + FactoryTrace.tla; conf_factory.py'),
+    'RunCmd': dict(path='specs/RunCmd.tla', kind_free_text='command runner + task directory spec + RunCmdTrace.tla; conf_runcmd.py'),
+    'Decide': dict(path='specs/Decide.tla', kind_free_text='decision function of the backend for one task, all inputs (serves C02, C04) + DecideTrace.tla; conf_decide.py'),
     'Student': dict(path='specs/Student.tla', kind_free_text='function-like TLA+ spec + StudentTrace.tla; harness/laws.py, conf_student.py'),
     'Bonferroni': dict(path='specs/Bonferroni.tla', kind_free_text='function-like TLA+ spec + BonferroniTrace.tla; conf_bonferroni.py'),
     'Chi2': dict(path='specs/Chi2.tla', kind_free_text='function-like TLA+ spec + Chi2Trace.tla; conf_chi2.py'),
